@@ -10,6 +10,7 @@ package main
 
 import (
 	"fmt"
+	"math/big"
 	"regexp"
 	"sort"
 	"strconv"
@@ -48,20 +49,20 @@ var c13Clusters = [][]string{
 
 // "clean" families: keys whose order under a sort mode is not in doubt, so that what the mode MEANS can be checked too
 var c13Clean = map[string][]string{
-	"ints":     {"-50", "-7", "0", "3", "9", "10", "11", "42", "100", "101", "999", "1000", "2500", "12345"},
-	"decimals": {"-2.5", "-0.5", "0.25", "1.5", "2", "10.75", "100.125", "99.5"},
-	"weekdays": {"Monday", "Tuesday", "Wednesday", "Thursday", "Friday", "Saturday"},
-	"wkabbr":   {"mon", "tue", "wed", "thu", "fri", "sat"},
-	"months":   {"January", "February", "March", "April", "May", "June", "July", "August", "September", "October", "November", "December"},
-	"monabbr":  {"Jan", "Feb", "Mar", "Apr", "May", "Jun", "Jul", "Aug", "Sep", "Oct", "Nov", "Dec"},
-	"iso":      {"2019-12-31", "2020-01-01", "2020-01-02", "2020-02-01", "2020-10-05", "2021-01-01", "2021-03-04", "2020-11-30"},
-	"us":       {"12/31/2019", "01/01/2020", "01/02/2020", "02/01/2020", "10/05/2020", "01/01/2021", "03/04/2021", "11/30/2020"},
-	"rfc3339":  {"2020-01-01T00:00:00Z", "2020-01-01T00:00:01Z", "2020-01-01T10:00:00Z", "2020-01-02T03:04:05Z", "2019-12-31T23:59:59Z", "2020-10-10T10:10:10Z"},
+	"ints":      {"-50", "-7", "0", "3", "9", "10", "11", "42", "100", "101", "999", "1000", "2500", "12345"},
+	"decimals":  {"-2.5", "-0.5", "0.25", "1.5", "2", "10.75", "100.125", "99.5"},
+	"weekdays":  {"Monday", "Tuesday", "Wednesday", "Thursday", "Friday", "Saturday"},
+	"wkabbr":    {"mon", "tue", "wed", "thu", "fri", "sat"},
+	"months":    {"January", "February", "March", "April", "May", "June", "July", "August", "September", "October", "November", "December"},
+	"monabbr":   {"Jan", "Feb", "Mar", "Apr", "May", "Jun", "Jul", "Aug", "Sep", "Oct", "Nov", "Dec"},
+	"iso":       {"2019-12-31", "2020-01-01", "2020-01-02", "2020-02-01", "2020-10-05", "2021-01-01", "2021-03-04", "2020-11-30"},
+	"us":        {"12/31/2019", "01/01/2020", "01/02/2020", "02/01/2020", "10/05/2020", "01/01/2021", "03/04/2021", "11/30/2020"},
+	"rfc3339":   {"2020-01-01T00:00:00Z", "2020-01-01T00:00:01Z", "2020-01-01T10:00:00Z", "2020-01-02T03:04:05Z", "2019-12-31T23:59:59Z", "2020-10-10T10:10:10Z"},
 	"rfc3339ms": {"2020-01-01T00:00:00.250Z", "2020-01-01T00:00:00.750Z", "2020-01-01T00:00:00.500Z", "2020-01-01T00:00:01.100Z", "2019-12-31T23:59:59.900Z", "2020-01-01T00:00:00.125Z", "2020-01-01T00:00:01.050Z"},
 	// zone-less timestamps around daylight-saving transitions (the hour 02:00-03:00 does not exist on 2024-03-10 in New York
 	// and on 2024-03-31 in Berlin): their order is the order of the wall-clock readings, wherever the process runs
-	"naive":    {"2024-03-10T01:30:00", "2024-03-10T02:30:00", "2024-03-10T03:30:00", "2024-03-10T02:45:00", "2024-03-31T01:30:00", "2024-03-31T02:30:00", "2024-03-31T03:30:00", "2024-11-03T01:30:00", "2024-10-06T02:15:00"},
-	"words":    {"alpha", "Beta", "gamma", "delta", "Echo", "zulu", "_x", "~y", "Alpha", "beta"},
+	"naive": {"2024-03-10T01:30:00", "2024-03-10T02:30:00", "2024-03-10T03:30:00", "2024-03-10T02:45:00", "2024-03-31T01:30:00", "2024-03-31T02:30:00", "2024-03-31T03:30:00", "2024-11-03T01:30:00", "2024-10-06T02:15:00"},
+	"words": {"alpha", "Beta", "gamma", "delta", "Echo", "zulu", "_x", "~y", "Alpha", "beta"},
 }
 
 var c13CleanLayout = map[string]string{"iso": "2006-01-02", "us": "01/02/2006", "rfc3339": time.RFC3339, "rfc3339ms": time.RFC3339Nano, "naive": "2006-01-02T15:04:05"}
@@ -130,17 +131,18 @@ type c13Scenario struct {
 	Pool   string
 	TopN   int // histo -n (0: show everything)
 	// clean scenarios: rows and columns have their own family, sort mode and modifier
-	Zone             string // the process's local time zone during the scenario ("" = the host's)
-	RedExpr          string // reduce: --sort expression ("" = by group key)
-	Clean            bool
-	RowFam, ColFam   string
-	ColSort, ColMod  string
-	Repeat           bool // tables: all copies of a row key fall into one cell (the same element arrives several times in a row)
+	Zone            string // the process's local time zone during the scenario ("" = the host's)
+	RedExpr         string // reduce: --sort expression ("" = by group key)
+	Clean           bool
+	RowFam, ColFam  string
+	ColSort, ColMod string
+	Vals            []string // histo with an increment column: one line `key<TAB>value` per key (totals at the ends of int64)
+	Repeat          bool     // tables: all copies of a row key fall into one cell (the same element arrives several times in a row)
 }
 
 func c13Gen(t *simrt.Tape, free bool) *c13Scenario {
 	sc := &c13Scenario{}
-	sc.Cmd = []string{"histo", "histo", "table", "bars", "heatmap", "spark", "bars2", "histo-large", "reduce", "reduce-large"}[t.W(10)]
+	sc.Cmd = []string{"histo", "histo", "table", "bars", "heatmap", "spark", "bars2", "histo-large", "reduce", "reduce-large", "histo-inc"}[t.W(11)]
 	if free {
 		// leg B (real parallelism under the race detector): key sets large enough for any code that only goes parallel
 		// above a size threshold
@@ -148,6 +150,24 @@ func c13Gen(t *simrt.Tape, free bool) *c13Scenario {
 	}
 	sc.Sort = []string{"text", "numeric", "contextual", "date", "value"}[t.W(5)]
 	sc.Mod = []string{"", "", ":asc", ":desc", ":reverse"}[t.W(5)]
+	if sc.Cmd == "histo-inc" {
+		// totals that are far apart (a comparator that subtracts them wraps around), sorted by value
+		// (a table: the histogram does not draw rows whose total is not positive)
+		sc.Cmd, sc.Sort, sc.Pool = "table", "value", "wide-totals"
+		sc.Cols = []string{"c"}
+		vals := []string{"-9000000000000000000", "-4611686018427387905", "-7", "1", "2", "4611686018427387904", "9000000000000000000", "9223372036854775807", "-9223372036854775807", "300"}
+		for i := len(vals) - 1; i > 0; i-- {
+			j := t.W(i + 1)
+			vals[i], vals[j] = vals[j], vals[i]
+		}
+		n := t.WRange(3, 7)
+		for i := 0; i < n; i++ {
+			sc.Keys = append(sc.Keys, []string{"k1", "b", "A", "10", "zz", "Mon", "k2"}[i])
+			sc.Counts = append(sc.Counts, 1)
+		}
+		sc.Vals = vals[:n]
+		return sc
+	}
 	if sc.Cmd == "reduce-large" && !free && !t.WBool(1, 4) {
 		sc.Cmd = "reduce" // the large kind is expensive: one scenario in forty
 	}
@@ -337,6 +357,10 @@ func c13LargeN(t *simrt.Tape) int {
 func (sc *c13Scenario) lines() []c3Line {
 	var out []c3Line
 	for i, k := range sc.Keys {
+		if sc.Vals != nil {
+			out = append(out, c3Line{Raw: "c\t" + k + "\t" + sc.Vals[i]})
+			continue
+		}
 		for c := 0; c < sc.Counts[i]; c++ {
 			if len(sc.Cols) > 0 {
 				col := sc.Cols[(i+c)%len(sc.Cols)]
@@ -394,6 +418,10 @@ func (sc *c13Scenario) scenario(sortArg string, t *simrt.Tape, shuffle []int) *c
 	case "table", "heatmap", "spark":
 		out.Regex = `^([^\t]*)\t([^\t]*)$`
 		out.Tpls = []c3Tpl{{{Grp: 1}}, {{Grp: 2}}}
+		if sc.Vals != nil {
+			out.Regex = `^([^\t]*)\t([^\t]*)\t(-?\d+)$`
+			out.Tpls = []c3Tpl{{{Grp: 1}}, {{Grp: 2}}, {{Grp: 3}}}
+		}
 		colArg := sortArg
 		if sc.Clean {
 			colArg = sc.ColSort + sc.ColMod
@@ -406,7 +434,7 @@ func (sc *c13Scenario) scenario(sortArg string, t *simrt.Tape, shuffle []int) *c
 	return out
 }
 
-var c13HistoLine = regexp.MustCompile(`^(.*?) {4,}(\d+) *$`)
+var c13HistoLine = regexp.MustCompile(`^(.*?) {4,}(-?\d+) *$`)
 var c13BarsLine = regexp.MustCompile(`^(.*?) {2,}\S* (\d+)$`)
 
 // labels extracts the row labels (and for tables the column labels) of a snapshot.
@@ -612,6 +640,9 @@ func init() {
 			}
 		}
 		desc := map[string]any{"cmd": sc.Cmd, "sort": sortArg, "pool": sc.Pool, "keys": sc.Keys, "counts": sc.Counts, "cols": sc.Cols, "local_zone": zone}
+		if sc.Vals != nil {
+			desc["totals"] = sc.Vals
+		}
 		if sc.Cmd == "reduce" {
 			desc["sort_expression"] = sc.RedExpr
 			if len(sc.Keys) > 40 {
@@ -755,6 +786,25 @@ func init() {
 				rc.Violate("col-order", "sort=%s keys=%s cmd=%s: the same data is shown in different column orders:\n variant 0: %q\n variant %d: %q\nvariant 0: %s\nvariant %d: %s\nscenario: %v",
 					sortArg, keysKind, sc.Cmd, base.cols, i+1, r.cols, base.v, i+1, r.v, desc)
 				break
+			}
+		}
+		if sc.Vals != nil && len(rc.Viol) == 0 {
+			// distinct totals: `value` shows larger totals first (ascending with :asc and :reverse)
+			idx := make([]int, len(sc.Keys))
+			for i := range idx {
+				idx[i] = i
+			}
+			val := func(i int) *big.Int { v, _ := new(big.Int).SetString(sc.Vals[i], 10); return v }
+			sort.Slice(idx, func(a, b int) bool { return val(idx[a]).Cmp(val(idx[b])) > 0 })
+			var want []string
+			for _, i := range idx {
+				want = append(want, sc.Keys[i])
+			}
+			if sc.Mod == ":asc" || sc.Mod == ":reverse" {
+				want = c13Reverse(want)
+			}
+			if strings.Join(want, "\x00") != strings.Join(base.rows, "\x00") {
+				rc.Violate("order-meaning", "cmd=table --sort-rows %s over row totals %v of keys %q: rows are shown as %q; by value the order is %q\nvariant: %s\nscenario: %v", sortArg, sc.Vals, sc.Keys, base.rows, want, base.v, desc)
 			}
 		}
 		// what the mode means, for keys whose order under it is not in doubt
